@@ -225,7 +225,7 @@ def nulfree_rule(chk, db, record, floor):
     length_q = reach.TRAITS_RECORD + "::length"
     entries = [f for f in db.funcs if f.get("record") == record and f.get("body") is not None and f.get("access", "public") == "public"]
     traits = [f for f in db.funcs if f.get("record") == reach.TRAITS_RECORD and f.get("body") is not None and f["n"] != "length"]
-    for f in entries + (traits if record == VIEW else []):
+    for f in entries + traits:      # char_traits is the backend of the view and of the string alike
         construct = astx.sig(f)
         cstr = takes_c_string(f) and f.get("record") == record
         chk.instance("NULFREE")
